@@ -1,5 +1,5 @@
 \* system contract + user contract, one slot, <= 3 blocks, <= 2 diff entries, no transactions
-\* measured: 15 688 distinct states, ~15 s on 4 workers
+\* measured: 1 632 distinct states, 4 893 generated
 CONSTANTS
   Users = {"c1"}
   Sys = {"sys1"}
